@@ -4,7 +4,7 @@ import threading
 import time
 
 from checks import servers
-from checks.common import swarm, make_exc
+from checks.common import swarm, make_exc, exc_choice
 
 ID = 'C09'
 LEVEL = 'exploration'
@@ -46,7 +46,7 @@ def gen(rng, tier):
     if rng.random() < 0.35:
         good = [it['x'] for it in items if it['kind'] == 'x']
         if good:
-            sc['pre_fail'] = {'xs': sorted(rng.sample(good, min(len(good), rng.choice([1, 2])))), 'exc': rng.choice(['ExcA', 'ExcB'])}
+            sc['pre_fail'] = {'xs': sorted(rng.sample(good, min(len(good), rng.choice([1, 2])))), 'exc': exc_choice(rng, ['ExcA', 'ExcB'])}
         else:
             sc['pre'] = True
     if rng.random() < 0.2:
